@@ -87,7 +87,7 @@ pub fn e1_jobs(prop: &str, tier: Tier) -> (Vec<E1Job>, usize) {
         "C13" => if q { vec![pf(5), pe(1, true, 2), pe(2, true, 1), paj(3), E1Job { profile: Profile::S, depth: 3, alt_map: false }] } else { vec![pf(5), pe(2, true, 2), E1Job { profile: Profile::S, depth: 3, alt_map: false }] },
         "C04x" => vec![],
         "C18" => if q { vec![pill(4), pc(7), pbs(3), pbj(4), pn(3), paj(4), pc3(9)] } else { vec![pill(5), pc(8), pc3(10), paj(5), pb(4), pbj(5), pn(4), pe(1, true, 2)] },
-        "C19" => if q { vec![pa15(3), pb(3), pd(5), pe(1, true, 2), pc(5), paj(4), pill(5), E1Job { profile: Profile::S, depth: 2, alt_map: false }] } else { vec![pa(3), pb(3), pbs(4), pd(5), pe(1, true, 2), pc(6), pf(4), paj(5), paj5(4), E1Job { profile: Profile::S, depth: 3, alt_map: false }] },
+        "C19" => if q { vec![pa15(3), pb(3), pd(5), pe(1, true, 2), pc(5), paj(4), pill(5), ped(3), E1Job { profile: Profile::S, depth: 2, alt_map: false }] } else { vec![pa(3), pb(3), pbs(4), pd(5), pe(1, true, 2), pc(6), pf(4), paj(5), paj5(4), ped(4), E1Job { profile: Profile::S, depth: 3, alt_map: false }] },
         "C20" => if q { vec![pn(4), pill(4), pb(3), pc(7), pd(5), pe(1, true, 2), paj(4), pa15(3), pf(3)] } else { vec![pn(5), pb(4), pc(8), pd(6), pe(1, true, 2), pf(4)] },
         _ => vec![],
     };
